@@ -118,6 +118,7 @@ type machine struct {
 	poolMode     int
 	hadViolation bool
 	hangCheck    bool
+	lastRet      value
 	known        map[*term]bool
 	timers       []*vtimer
 	now          *term
@@ -694,6 +695,7 @@ func (m *machine) runPath(entry *ssa.Function, it workItem) (kind endKind, msg s
 	main := m.newThread(entry, nil, nil)
 	main.name = "main"
 	kind, msg = m.runThreads(main)
+	m.lastRet = main.ret
 	m.rollback()
 	return
 }
